@@ -69,6 +69,7 @@ static Case cases[] = {
     {"json_blank", [] { return js_undef("   ", 3) ? 0 : 1; }},
     {"json_backslash_end", [] { return js_undef("[\"a\\", 4) ? 0 : 1; }},
     {"json_keyword_nul", [] { return js_undef("[true\0\0]", 8) ? 0 : 1; }},
+    {"json_exponent_wraps_32_bits", [] { return (js_undef("[1e4294967297]", 15) && js_undef("[1e-4294967297]", 16)) ? 0 : 1; }},
     {"json_zero_with_exponent", [] { return js_is("[0e1,0E-2,0.0e5,-0e1]", "[0,0,0,-0]"); }},
     {"json_partial_object_in_array", [] { return js_is("[{\"a\":1 x,2]", nullptr); }},
     {"json_partial_array_in_array", [] { return js_is("[[1 x,2]", nullptr); }},
